@@ -3,8 +3,8 @@
 package main
 
 import (
-	"bytes"
 	"bufio"
+	"bytes"
 	"context"
 	"encoding/hex"
 	"errors"
@@ -102,11 +102,15 @@ type failing struct {
 	once     bool // transient: fail once, then continue
 	failed   bool
 	chunk    int
+	onFail   func()
 }
 
 func (f *failing) Read(p []byte) (int, error) {
 	if f.off >= f.k && !(f.once && f.failed) {
 		f.failed = true
+		if f.onFail != nil {
+			f.onFail()
+		}
 		return 0, f.err
 	}
 	lim := f.k
@@ -127,6 +131,9 @@ func (f *failing) Read(p []byte) (int, error) {
 	f.off += n
 	if f.withData && f.off >= f.k && !(f.once && f.failed) {
 		f.failed = true
+		if f.onFail != nil {
+			f.onFail()
+		}
 		return n, f.err
 	}
 	return n, nil
@@ -300,13 +307,24 @@ func main() {
 							_ = wrap
 							var got result
 							var perr error
+							// every third run: the source is bound to the caller's context and that context is done by the
+							// time the read fails (the usual situation with a cancelled request); Parse must still not
+							// return a nil error, and the error is the reader's or the context's
+							ctx := context.Background()
+							ctxDone := runs%3 == 2
+							if ctxDone {
+								c, cancel := context.WithCancel(context.Background())
+								ctx = c
+								f.onFail = cancel
+								defer cancel()
+							}
 							func() {
 								defer func() {
 									if x := recover(); x != nil {
 										got.panicv = fmt.Sprint(x)
 									}
 								}()
-								_, perr = parser.Parse(context.Background(), rd)
+								_, perr = parser.Parse(ctx, rd)
 							}()
 							if got.panicv != "" {
 								note(fmt.Sprintf("fail@%d kind=%d: panic %s", k, ki, got.panicv))
@@ -315,6 +333,9 @@ func main() {
 							// a buffering wrapper hands the error on at its NEXT Read; the lexer stops reading at a NUL byte, so
 							// with a NUL before the failure point the reader passed to Parse may never have returned the error
 							deferred := strings.HasPrefix(wrap, "bufio") && bytes.IndexByte(data[:min(k, len(data))], 0) >= 0
+							if f.failed && !deferred && ctxDone && perr != nil && errors.Is(perr, context.Canceled) {
+								continue // both happened: the context's error is an acceptable report
+							}
 							if f.failed && !deferred && !errors.Is(perr, e) {
 								note(fmt.Sprintf("fail@%d kind=%d withData=%v once=%v reader=%s: reader returned %q but Parse returned err=%v", k, ki, wd, once, wrap, e.Error(), perr))
 							}
